@@ -99,7 +99,18 @@ partial def readLoop (dec : RecordRx.Dec) (bufs : List Nat) (cap : Nat) (s : Rx)
 
 def readCap (total : Nat) : Nat := 4 * total + 20
 
-def judgeMps (ct : List String) (_o : String) : Option Verdict := do
+def parseInt (s : String) : Option Int :=
+  if s.startsWith "-" then (String.ofList (s.toList.drop 1)).toNat?.map (fun n => -(n : Int)) else s.toNat?.map Int.ofNat
+
+def parseInts (s : String) : Option (List Int) :=
+  if s == "-" then some [] else (s.splitOn ",").mapM parseInt
+
+def specMode : Kind → Spec.Stream.Mode
+  | .none => .plain
+  | .aead => .gcm
+  | .cbc => .cbc
+
+def judgeMps (ct : List String) (o : String) : Option Verdict := do
   let k ← (kv ct "kind").bind parseKind
   let dyn ← kvNat ct "dyn"
   let app ← kvNat ct "app"
@@ -114,11 +125,10 @@ def judgeMps (ct : List String) (_o : String) : Option Verdict := do
       go i r.2 (r.1 :: acc)
   let r := go n ⟨bs, ps⟩ []
   let mp := if r.1.isEmpty then "-" else ",".intercalate (r.1.map toString)
-  -- spec: the answer must allow progress and respect the plaintext limit
-  let bad := r.1.find? (fun x => x ≤ 0 || x > (Spec.Stream.maxPlaintext : Int))
-  let spec := match bad with
-    | some x => some ("max-payload", s!"maxPayloadSizeForWrite answered {x}")
-    | none => none
+  -- spec, on what the implementation answered: progress and the plaintext limit
+  let spec := match (kv (tokens o) "mp").bind parseInts with
+    | some obs => Spec.Stream.checkMaxPayload obs
+    | none => some ("shape", "unparseable mp")
   pure { model := s!"mp={mp} ps={r.2.packetsSent}", spec := spec, trivial := n == 0 }
 
 def parseReads (s : String) : Option (List (Nat × Spec.Stream.REnd)) :=
@@ -176,7 +186,7 @@ def judgeStream (ct : List String) (o : String) : Option Verdict := do
       match plain with
       | none => some ("shape", "unparseable pl")
       | some plain =>
-        Spec.Stream.check { writes := ws, returned := ns, wireLens := wireLens, plainLens := plain,
+        Spec.Stream.check { writes := ws, returned := ns, mode := specMode k, wireLens := wireLens, plainLens := plain,
                             reads := (cutBy (rds.map (·.1)) data).zip (rds.map (·.2)) }
     | _, _, _, _, _ => some ("shape", "unparseable observation")
   pure { model := model, spec := spec, trivial := total == 0 }
